@@ -219,7 +219,7 @@ theorem filterFrame_idem (uio : Bool) (l : Labelled R) :
   unfold filterFrame
   by_cases h : (uio && !(l.filter fun p => !p.1).isEmpty) = true
   · simp only [h, if_true, List.filter_filter, Bool.and_self]
-  · simp only [h, if_false]
+  · simp only [h]
     simp [h]
 
 /-- **All three frameworks enumerate the same instances of a labelled frame**, for every model type,
